@@ -52,6 +52,8 @@ def run(ck):
         traces.append(dbgen.gen_kv_trace(rng, length=rng.randint(6, 16)))
     for _ in range(40 * n):
         traces.append(dbgen.gen_launch_evolve_trace(rng))
+    for _ in range(20 * n):
+        traces.append(dbgen.gen_launch_idle_trace(rng))
     for vid, (rg, cn) in {101: ([1, 2], [2, 1]), 102: ([1, 2], [1, 2]), 103: ([3], [3])}.items():
         eng.define_regions(vid, rg, cn)
     for _ in range(40 * n):
